@@ -21,7 +21,7 @@ RULE = (
     "'did not return' (counted, not judged); non-trivial = the operation returned and the input has >=2 plates or >=2 samples"
 )
 ASSUMPTIONS = ["per-plate hold-out count: ceil of the float product, of the exact rational product, and of the decimal reading of the fraction are all accepted"]
-REQUIRED = {"holdout_grid_points": {"quick": 2500, "thorough": 2500}, "returned_screens_changed_in_place": {"quick": 150, "thorough": 3000}, "holdouts_on_integer_masks": {"quick": 80, "thorough": 1200}, "cli_prepare_runs": {"quick": 12, "thorough": 150}, "cli_prepare_fraction_0": {"quick": 6, "thorough": 14}, "generator_returns": {"quick": 600, "thorough": 9000}, "smoother_returns": {"quick": 1000, "thorough": 15000}, "holdout_returns": {"quick": 500, "thorough": 7000}, "input_unchanged_checks": {"quick": 3500, "thorough": 50000}, "ops_after_in_place_reveal": {"quick": 150, "thorough": 2500}}
+REQUIRED = {"holdouts_with_failed_wells_on_observed_plates": {"quick": 60, "thorough": 800}, "holdout_grid_points": {"quick": 2500, "thorough": 2500}, "returned_screens_changed_in_place": {"quick": 150, "thorough": 3000}, "holdouts_on_integer_masks": {"quick": 80, "thorough": 1200}, "cli_prepare_runs": {"quick": 12, "thorough": 150}, "cli_prepare_fraction_0": {"quick": 6, "thorough": 14}, "generator_returns": {"quick": 600, "thorough": 9000}, "smoother_returns": {"quick": 1000, "thorough": 15000}, "holdout_returns": {"quick": 500, "thorough": 7000}, "input_unchanged_checks": {"quick": 3500, "thorough": 50000}, "ops_after_in_place_reveal": {"quick": 150, "thorough": 2500}}
 N_OPS = {"quick": 4000, "thorough": 56000}
 
 
@@ -113,6 +113,45 @@ def holdout_grid(rec, rng, shard, nshards):
                 rec.count("oracle_evals")
                 want = accepted_counts(size if name == "holdout_balanced" else size + 2, f)
                 rec.check(hold.size in want, "C11/holdout/wrong-per-plate-count" if name == "holdout_balanced" else "C11/holdout/wrong-count", lambda: "%s: fraction %r of %d experiments gave a hold-out of %d, expected %r" % (name, f, size if name == "holdout_balanced" else size + 2, hold.size, sorted(want)), w)
+
+
+def holdout_with_failed_wells(rec, rng, n):
+    """Observed plates whose read-outs include failed wells (NaN), saturated ones (inf) or exact zeros are observed
+    plates all the same: the plate-balanced hold-out takes nothing from them and ceil(fraction x size) from each
+    unobserved plate.  Judged by plate NAME (a NaN cannot serve as a row tag)."""
+    from batchie.data import Screen
+    from batchie import retrospective as R
+
+    for _ in range(n):
+        sizes = {"seen_a": int(rng.integers(1, 7)), "seen_b": int(rng.integers(1, 7)), "todo_a": int(rng.integers(1, 13)), "todo_b": int(rng.integers(1, 13))}
+        pn = np.array([p for p, k in sizes.items() for _i in range(k)], dtype=str)
+        n_ = len(pn)
+        o = rng.permutation(n_)
+        pn = pn[o]
+        obs = rng.uniform(0.05, 0.95, size=n_)
+        mask = np.char.startswith(pn, "seen")
+        odd = np.flatnonzero(mask)
+        for i_ in odd[rng.random(len(odd)) < 0.5]:
+            obs[i_] = float(rng.choice([float("nan"), float("nan"), float("inf"), 0.0]))
+        kw = dict(treatment_names=np.array([["d%d" % (i % 4), "e%d" % (i % 3)] for i in range(n_)], dtype=str), treatment_doses=np.ones((n_, 2)), sample_names=np.array(["s%d" % (i % 2) for i in range(n_)], dtype=str), plate_names=pn, observations=obs, observation_mask=mask)
+        f = float(rng.choice([0.1, 0.25, 0.5, 0.75, 1.0, float(rng.uniform(0.01, 0.99))]))
+        w = {"op": "holdout_balanced", "fraction": f, "plate_sizes": sizes, "observed_values": [repr(float(x)) for x in obs[mask]]}
+        rec.case(("failed-wells", kit.array_hash(pn), repr(f), kit.array_hash(np.nan_to_num(obs, nan=-7.0, posinf=-8.0))))
+        try:
+            scr = Screen(**kw)
+            train, hold = R.create_plate_balanced_holdout_set_among_masked_plates(scr, f, np.random.default_rng(int(rng.integers(0, 2**31))))
+        except Exception as e:
+            rec.did_not_return("holdout-failed-wells", e)
+            continue
+        rec.count("holdouts_with_failed_wells_on_observed_plates")
+        rec.count("oracle_evals")
+        taken = {p: int(np.sum(np.asarray(hold.plate_names).astype(str) == p)) for p in sizes}
+        for p, k in sizes.items():
+            if p.startswith("seen"):
+                rec.check(taken[p] == 0, "C11/holdout/row-from-observed-plate", lambda: "hold-out took %d rows from observed plate %r (its read-outs: %r)" % (taken[p], p, [repr(float(x)) for x in obs[pn == p]]), w)
+            else:
+                rec.check(taken[p] in accepted_counts(k, f), "C11/holdout/wrong-per-plate-count", lambda: "hold-out took %d of %d rows from unobserved plate %r, fraction %r" % (taken[p], k, p, f), w)
+        rec.check(train.size + hold.size == n_, "C11/holdout/not-a-partition", lambda: "training %d + hold-out %d rows, screen has %d" % (train.size, hold.size, n_), w)
 
 
 def cli_prepare(rec, tier, rng):
@@ -261,4 +300,5 @@ def run_shard(rec, tier, seed, shard, nshards):
         else:
             screen = real_screen
     holdout_grid(rec, rng, shard, nshards)
+    holdout_with_failed_wells(rec, rng, 12 if tier == "quick" else 120)
     cli_prepare(rec, tier, rng)
